@@ -45,6 +45,7 @@ def run(ch, build):
     with cf.ThreadPoolExecutor(max_workers=8) as ex:
         outs = list(ex.map(lambda l: core.run_lines(core.HARNESS, [l], 120)[0], lines))
     worst = 0.0
+    worst_jitter = 0.0
     for rq, o in zip(reqs, outs):
         res = json.loads(o)
         desc = {"kind": "c13", "call": rq["call"], "fault": rq["fault"], "from": rq["from"]}
@@ -53,7 +54,10 @@ def run(ch, build):
         if res.get("setup"):
             ch.corr_break(dict(desc, kind="setup"), dict(detail, what="scenario setup failed: " + res["setup"]))
             continue
-        limit = max(rq["deadline_ms"], 0) + ALLOW_MS
+        # the allowance grows with what a plain 5 ms sleep was late by during the call (a busy machine delays the library's
+        # timers just the same); on an idle machine that is a millisecond or two
+        limit = max(rq["deadline_ms"], 0) + ALLOW_MS + 3 * res.get("jitter_ms", 0)
+        worst_jitter = max(worst_jitter, res.get("jitter_ms", 0))
         worst = max(worst, res["elapsed_ms"] - max(rq["deadline_ms"], 0))
         if res["hang"] or res["elapsed_ms"] > limit:
             ch.violation(desc, dict(detail, what="returned after %.0f ms, context allowed %d ms" % (res["elapsed_ms"], rq["deadline_ms"])))
@@ -75,6 +79,7 @@ def run(ch, build):
             ch.violation(desc, dict(detail, what="success reported although requests from #%d on never got a valid response" % rq["from"]))
     ch.extra["worst_overrun_ms"] = round(worst, 1)
     ch.extra["allowance_ms"] = ALLOW_MS
+    ch.extra["worst_timer_lateness_ms"] = round(worst_jitter, 1)
     return ch.finish(rule=RULE, assumptions=[
         "the theorem part is about the deadline arithmetic of the retry loop (Timing.v); scheduler, kernel socket deadlines and wall-clock behaviour are measured, not proved",
         "loopback UDP; scheduling allowance 250 ms"])
